@@ -139,5 +139,14 @@ CLAIMS['C18'] = dict(
     note='the prompt grammar is an assumed contract on an external program; unit list counts (2 objects, 1 source, 2 loads, 3 segments) in the order '
          'and block units -- the per-element text does not depend on the count',
     design_ref='DESIGN.md §5 C18')
+CLAIMS['C04'] = dict(
+    category='other',
+    text='Clause claimed: the vector-potential assembly of each pulse half. The real Mininec.nf_helper is executed symbolically (values '
+         'unbounded) for a container of two pulses, each pulse index and both image signs -- BOUNDED in the array shape, so not counted as a '
+         'proof: each component is psi(lower half) * sign_1 * direction of segment 1 (* ground sign on z) + psi(upper half) * sign_2 * direction '
+         'of segment 2, times the image vector, with psi called on exactly the mirrored half-segment ends. Everything else of the property '
+         '(scalar potential, curl, far-field convergence) is exercised by the bounded native sweep only; one recorded finding (C04-unequal-junction).',
+    note='clause-only, shape-bounded (2 pulses, scalar index); psi by contract',
+    design_ref='DESIGN.md §5 C04')
 for _p in CLAIMS:
     NOT_APPLICABLE.pop(_p, None)
